@@ -143,6 +143,25 @@ func c28(run *ev.Run) {
 				ts = append(ts, tamper{"duplicate-node", func(c *block.StateChange, rb *block.Block) {
 					c.Nodes = append(append([]util.Node{}, c.Nodes...), c.Nodes[i])
 				}})
+				// pairs that keep the LENGTH of the node list equal to the declared count
+				for _, j := range []int{(i + 1) % len(got.Nodes), 0, len(got.Nodes) - 1} { // next node, first, last (the root is among them)
+					j := j
+					if j == i || mp { // (pairs over the JSON transport only)
+						continue
+					}
+					ts = append(ts, tamper{"drop-node+repeat-another", func(c *block.StateChange, rb *block.Block) {
+						n := append([]util.Node{}, c.Nodes...)
+						n[i] = n[j] // node i is gone, node j is listed twice
+						c.Nodes = n
+					}})
+				}
+				if len(foreign) > 0 {
+					ts = append(ts, tamper{"replace-node-by-foreign", func(c *block.StateChange, rb *block.Block) {
+						n := append([]util.Node{}, c.Nodes...)
+						n[i] = foreign[i%len(foreign)]
+						c.Nodes = n
+					}})
+				}
 			}
 			for _, t := range ts {
 				c, err := transport(bsc, mp)
@@ -161,6 +180,16 @@ func c28(run *ev.Run) {
 				c2.Block = c.Block
 				err = rb.ApplyBlockStateChange(c2, w.Chain)
 				if err == nil {
+					if t.name == "replace-node-by-foreign" {
+						// same number of distinct nodes, same root, same block hash: outside the statement's
+						// rejection clause (recorded as an observation only)
+						s.Tag("outside-clause-accepted:" + t.name)
+						continue
+					}
+					if _, lerr := safeLeaves(rb.ClientState); lerr != nil {
+						v("C28:mismatching-change-set-accepted:"+t.name, fmt.Sprintf("change set with %s was applied and the synced state is not completely readable: %v", t.name, lerr))
+						continue
+					}
 					// semantically neutral? (e.g. duplicate of an identical node changes neither count nor content after dedup)
 					if len(c2.Nodes) == rb.StateChangesCount && c2.Block == rb.Hash && bytes.Equal(c2.Hash, rb.ClientStateHash) &&
 						rb.ClientState != nil && leafKey(world.Leaves(rb.ClientState)) == leafKey(s.Post.Leaves) {
@@ -182,6 +211,16 @@ func c28(run *ev.Run) {
 	e := &chainsim.Explorer{Run: run, W: w, Actions: acts, Depth: run.Pick(2, 3), Monitors: []chainsim.Monitor{mon},
 		Budget: time.Duration(run.Pick(50, 780)) * time.Second}
 	run.Rule = "BFS over blocks built from sends, contract calls and settings updates; for every explored block: the published change set (JSON and msgpack transport) applied to a header-only copy of the block must reproduce the declared root and the executed block's full leaf set; every single tampering of block hash, root, declared count, and every drop / foreign insertion / duplication of a node at every position must be rejected with block, previous state and state DB untouched"
-	run.Assumptions = []string{"one transaction per block", "tamperings that keep root, block hash and node count (a wrong interior node) are outside the statement's rejection clause and are not demanded"}
+	run.Assumptions = []string{"one transaction per block", "node count is read as the number of DISTINCT nodes delivered (a list that repeats a node delivers fewer nodes than declared); tamperings that keep root, block hash and the number of distinct nodes (a node replaced by a foreign one) are outside the statement's rejection clause: they are counted (tag outside-clause-accepted) but not demanded — observation: the real code accepts them and marks the block synched with an incomplete state"}
 	e.Explore()
+}
+
+// safeLeaves iterates a state that may have missing nodes.
+func safeLeaves(mpt util.MerklePatriciaTrieI) (ls []world.Leaf, err error) {
+	defer func() {
+		if r := recover(); r != nil {
+			err = fmt.Errorf("%v", r)
+		}
+	}()
+	return world.Leaves(mpt), nil
 }
